@@ -612,9 +612,14 @@ pub fn c02(rng: &mut Rng, thorough: bool, idx: u64) -> Spec {
     if cache_on && !session {
         cfg.pools[0].cache_size = *rng.pick(&[1usize, 2, 8]);
     }
-    let idle_txn_timeout = if rng.chance(0.3) { rng.range(20, 100) } else { 0 };
+    // The network first: the two timeouts must leave room for a round trip plus the think times
+    // of the programs (up to 30 ms), or they fire in the middle of ordinary work and every reply
+    // after the unsolicited error is off by one for a strict client.
+    let net = if rng.chance(0.4) { net_calm() } else { net_swarm(rng) };
+    let rtt = 4 * (net.latency_ms.1 + net.jitter_ms);
+    let idle_txn_timeout = if rng.chance(0.3) { 60 + rtt + rng.range(0, 80) } else { 0 };
     cfg.set("idle_client_in_transaction_timeout", idle_txn_timeout);
-    let stmt_timeout = if rng.chance(0.3) { rng.range(30, 100) } else { 0 };
+    let stmt_timeout = if rng.chance(0.3) { 30 + rtt + rng.range(0, 70) } else { 0 };
     cfg.pools[0].users[0].statement_timeout = stmt_timeout;
     if rng.chance(0.3) {
         cfg.pools[0].query_parser_enabled = true;
@@ -839,7 +844,6 @@ pub fn c02(rng: &mut Rng, thorough: bool, idx: u64) -> Spec {
         let commit_idx = ca.steps.iter().position(|s| matches!(s, Step::Hold { .. })).unwrap_or(1).saturating_sub(1);
         cb.start = When::After { ev: format!("c1.s{}.done", commit_idx), delay_ms: 0 };
     }
-    let net = if rng.chance(0.4) { net_calm() } else { net_swarm(rng) };
     let mut spec = Spec { config_toml: cfg.render(), hosts: cfg.hosts(), net, clients: vec![ca, cb], end: EndSpec { deadline_ms: 900_000, calm_ms: 100 }, ..Default::default() };
     spec.params = params_from(&cfg);
     spec.params.insert("cache_on".into(), serde_json::json!(cfg.pools[0].cache_size > 0));
